@@ -5,7 +5,7 @@
 use std::alloc::{GlobalAlloc, Layout, System};
 use std::io::Write;
 use std::sync::atomic::{AtomicUsize, Ordering};
-use verif_harness::connrun::{run_case, Action, ConnCase, Finish, Mode, RespSpec, Timing};
+use verif_harness::connrun::{run_case, Action, ConnCase, Finish, Mode, RespSpec, Timing, WOp};
 use verif_harness::{seed_from_env, Rng};
 
 struct Counting;
@@ -51,7 +51,10 @@ fn ok_resp() -> RespSpec {
 }
 
 fn action(kind: usize, blen: usize) -> Action {
-    match kind % 5 {
+    match kind % 7 {
+        // the raw writer, taken without ever asking for the body (an unanswered expectation stays unanswered)
+        5 => Action { as_reader: 0, read_total: 0, buf: 1, delay_ms: 0, fin: Finish::Writer(vec![WOp::W(b"HTTP/1.1 200 OK\r\nContent-Length: 2\r\n\r\nok".to_vec()), WOp::F]), zero_read: false },
+        6 => Action { as_reader: 0, read_total: 0, buf: 1, delay_ms: 0, fin: Finish::Writer(vec![]), zero_read: false },
         0 => Action { as_reader: 0, read_total: 0, buf: 1, delay_ms: 0, fin: Finish::Respond(ok_resp()), zero_read: false },
         1 => Action { as_reader: 0, read_total: 0, buf: 1, delay_ms: 0, fin: Finish::Drop, zero_read: false },
         2 => Action { as_reader: 1, read_total: std::cmp::min(blen, 3), buf: 2, delay_ms: 0, fin: Finish::Respond(ok_resp()), zero_read: false },
@@ -63,7 +66,7 @@ fn action(kind: usize, blen: usize) -> Action {
 /// the adversarial corpus; deterministic in (seed, index)
 fn gen_case(i: usize, rng: &mut Rng) -> (ConnCase, String) {
     let fam = i % 16;
-    let act = rng.below(5);
+    let act = rng.below(7);
     let mut tag = String::new();
     let mut bytes: Vec<u8> = vec![];
     let mut blen = 0usize;
@@ -173,7 +176,12 @@ fn gen_case(i: usize, rng: &mut Rng) -> (ConnCase, String) {
             // Expect / Connection / version corner cases with odd bytes
             let v = *rng.pick(&["Expect: 100-continue\r\nContent-Length: 5\r\n\r\nhello", "Connection: upgrade\r\n\r\n\u{0}\u{1}raw", "Expect: \u{7f}\r\n\r\n", "Content-Length: 5\r\nContent-Length: 6\r\n\r\nhello!", ": empty-name\r\n\r\n",
                                 " Host: folded-first\r\n\r\n", "\t\r\nHost: x\r\n\r\n", " \r\n\r\n"]);
-            bytes.extend_from_slice(format!("POST /x HTTP/1.1\r\n{}", v).as_bytes());
+            // ... in every protocol version the request line can name
+            let ver = *rng.pick(&["1.1", "1.1", "1.0", "2.0", "3.0"]);
+            bytes.extend_from_slice(format!("POST /x HTTP/{}\r\n{}", ver, v).as_bytes());
+            if rng.chance(1, 2) {
+                bytes.extend_from_slice(b"GET /next HTTP/1.1\r\nHost: x\r\n\r\n");
+            }
             blen = 5;
             tag = "corner".into();
         }
